@@ -54,19 +54,20 @@ type SLO struct{ Binding, Location, ResponseLocation string }
 
 // SPDesc describes the metadata document of a simulated service provider.
 type SPDesc struct {
-	EntityID            string
-	ACS                 []ACS
-	SLO                 []SLO
-	EncCert             *keys.Pair // an encryption KeyDescriptor (use="encryption") listed in FRONT of the signing one
-	Cert                *keys.Pair // nil = no KeyDescriptor
-	CertUse             string     // "signing" (default), "" (no use attribute), "encryption"
-	CertWrap            int        // 0 = unwrapped base64, else column width
-	CertSep             string     // line separator of a wrapped certificate ("" = "\n"); may indent with blanks or tabs
-	AuthnRequestsSigned string     // "" = attribute absent
-	WantAssertionSigned string
-	NoSPSSO             bool
-	Prefix              string // "md" default; "" = default namespace
-	Indent              bool
+	EntityID             string
+	ACS                  []ACS
+	SLO                  []SLO
+	EncCert              *keys.Pair // an encryption KeyDescriptor (use="encryption") listed in FRONT of the signing one
+	Cert                 *keys.Pair // nil = no KeyDescriptor
+	CertUse              string     // "signing" (default), "" (no use attribute), "encryption"
+	CertWrap             int        // 0 = unwrapped base64, else column width
+	CertSep              string     // line separator of a wrapped certificate ("" = "\n"); may indent with blanks or tabs
+	AuthnRequestsSigned  string     // "" = attribute absent
+	WantAssertionsSigned string     // "" = attribute absent
+	WantAssertionSigned  string
+	NoSPSSO              bool
+	Prefix               string // "md" default; "" = default namespace
+	Indent               bool
 }
 
 func q(prefix, local string) string {
@@ -90,6 +91,9 @@ func (d *SPDesc) Node() *Node {
 		return root
 	}
 	sp := El(q(p, "SPSSODescriptor"))
+	if d.WantAssertionsSigned != "" {
+		sp.Set("WantAssertionsSigned", d.WantAssertionsSigned)
+	}
 	if d.AuthnRequestsSigned != "" {
 		sp.Set("AuthnRequestsSigned", d.AuthnRequestsSigned)
 	}
@@ -162,9 +166,9 @@ type Style struct {
 	PfxP   string // prefix of the protocol namespace; "" = default namespace
 	PfxA   string // prefix of the assertion namespace; "" = declared as default on each assertion element
 	Indent string
-	Decl   int  // 0 none, 1 standard declaration, 2 declaration with standalone
-	Shuf   bool // shuffle attribute order of the root
-	NSLate bool // declare the assertion namespace on the child elements instead of the root
+	Decl   int    // 0 none, 1 standard declaration, 2 declaration with standalone
+	Shuf   bool   // shuffle attribute order of the root
+	NSLate bool   // declare the assertion namespace on the child elements instead of the root
 	Head   string // Misc (comment, processing instruction, white space) between the declaration and the document element
 	Tail   string // Misc behind the document element (XML 1.0: document ::= prolog element Misc*)
 }
